@@ -1,6 +1,7 @@
 import DaskModel.Lemmas.ArrayReduce
 import DaskModel.Lemmas.BlockScan
 import DaskModel.Lemmas.BlellochTable
+import DaskModel.Lemmas.TopK
 import Mathlib.Tactic.SplitIfs
 /-!
 # C22 — array reductions and scans equal NumPy for every chunking and `split_every`
@@ -440,6 +441,36 @@ theorem argmax_eq_numpy (k depth : Nat) (hk : k ≠ 0) (blocks : List (List Int)
 
 /-- `argBest` really is "first index of the minimum": ties keep the earlier index -/
 example : argBest ltMin [3, 1, 2, 1] = some (1, 1) ∧ argBest ltMax [3, 1, 3] = some (3, 0) := by decide
+
+/-! ## top-k -/
+
+theorem topkPart_parts (k : Int) (ls : List (List Int)) :
+    topkPart k ((ls.map (topkPart k)).flatten) = topkPart k ls.flatten := by
+  unfold topkPart
+  split
+  · exact topk_parts desc_order k.toNat ls
+  · exact topk_parts asc_order (-k).toNat ls
+
+theorem hom_topk (k : Int) : Hom (redTopk k).combine (redTopk k).combine := by
+  intro gs _ _
+  show topkPart k ((gs.map fun g => topkPart k g.flatten).flatten) = topkPart k gs.flatten.flatten
+  have := topkPart_parts k (gs.map List.flatten)
+  simp only [List.map_map, Function.comp_def] at this
+  rw [this, List.flatten_flatten]
+
+/-- **topk_eq_sort_take**: `da.topk(x, k)` = the `k` largest (`k > 0`, descending) / `-k` smallest (`k < 0`,
+    ascending) elements of the whole array, for every blocking, `split_every` and valid depth. -/
+theorem topk_eq_sort_take (k : Int) (kk depth : Nat) (hk : kk ≠ 0) (blocks : List (List Int)) (hne : blocks ≠ [])
+    (hd : blocks.length ≤ kk ^ depth) :
+    (redTopk k).run1 kk depth blocks = some [topkPart k blocks.flatten] := by
+  rw [run1_eq (redTopk k) (topkPart k) rfl (hom_topk k) (hom_topk k) kk depth hk blocks hne hd]
+  show some [topkPart k ((blocks.map (topkPart k)).flatten)] = _
+  rw [topkPart_parts]
+
+example : (redTopk 2).run1 2 2 [[4, 2], [9], [7, 1]] = some [[9, 7]] := by
+  rw [topk_eq_sort_take 2 2 2 (by decide) _ (by simp) (by decide)]; decide
+example : (redTopk (-2)).run1 2 2 [[4, 2], [9], [7, 1]] = some [[1, 2]] := by
+  rw [topk_eq_sort_take (-2) 2 2 (by decide) _ (by simp) (by decide)]; decide
 
 /-! ## K2: cumulative reductions -/
 section scans
